@@ -14,6 +14,9 @@
 #endif
 #if defined(HAVE_EMMINTRIN_H) && defined(HAVE_TMMINTRIN_H)
 # include "dolbeau/chacha20_dolbeau-ssse3.h"
+#ifdef SODIUM_VERIF
+# include "private/verif.h"
+#endif
 #endif
 
 static const crypto_stream_chacha20_implementation *implementation =
@@ -167,16 +170,25 @@ int
 _crypto_stream_chacha20_pick_best_implementation(void)
 {
     implementation = &crypto_stream_chacha20_ref_implementation;
+#ifdef SODIUM_VERIF
+    SODIUM_VERIF_EVENT("pick", "chacha20", "ref");
+#endif
 #if defined(HAVE_AVX2INTRIN_H) && defined(HAVE_EMMINTRIN_H) && \
     defined(HAVE_TMMINTRIN_H) && defined(HAVE_SMMINTRIN_H)
     if (sodium_runtime_has_avx2()) {
         implementation = &crypto_stream_chacha20_dolbeau_avx2_implementation;
+#ifdef SODIUM_VERIF
+        SODIUM_VERIF_EVENT("pick", "chacha20", "avx2");
+#endif
         return 0;
     }
 #endif
 #if defined(HAVE_EMMINTRIN_H) && defined(HAVE_TMMINTRIN_H)
     if (sodium_runtime_has_ssse3()) {
         implementation = &crypto_stream_chacha20_dolbeau_ssse3_implementation;
+#ifdef SODIUM_VERIF
+        SODIUM_VERIF_EVENT("pick", "chacha20", "ssse3");
+#endif
         return 0;
     }
 #endif
